@@ -179,7 +179,7 @@ def parse_tsan(path):
         return []
     reps = []
     for blk in txt.split("=================="):
-        m = re.search(r"WARNING: ThreadSanitizer: ([^\n(]+)", blk)
+        m = re.search(r"(?:WARNING|ERROR): ThreadSanitizer: ([^\n(]+)", blk)
         if not m:
             continue
         frames = []
@@ -202,7 +202,7 @@ def report_key(rep):
         return KNOWN_WAVELET
     if "global 'signgam'" in rep.get("location", "") and re.search(r"mapConformal\w+", text):
         return KNOWN_LGAMMA
-    tag = "race" if "data race" in rep["kind"] else "tsan-" + re.sub(r"\W+", "-", rep["kind"])
+    tag = "race" if "data race" in rep["kind"] else "tsan-" + re.sub(r"\W+", "-", rep["kind"].split(" on ")[0].strip())
     if lib:
         # innermost library function that is a member of a TasGrid class, else the innermost library frame
         named = [f for f in lib if "TasGrid::" in f[0]]
